@@ -417,6 +417,29 @@ pub mod verif_hooks {
         }
     }
 
+    /// Response-handler table of one connection (`ResponseHandlerMap`).
+    pub struct HandlerTable(verif_connection::HandlerTable);
+    impl HandlerTable {
+        #[allow(clippy::new_without_default)]
+        pub fn new() -> Self {
+            Self(verif_connection::HandlerTable::new())
+        }
+        #[allow(clippy::result_unit_err)]
+        pub fn allocate(&mut self, request_id: u64) -> Result<i16, ()> {
+            self.0.allocate(request_id)
+        }
+        pub fn orphan(&mut self, request_id: u64) {
+            self.0.orphan(request_id)
+        }
+        #[allow(clippy::result_unit_err)]
+        pub fn lookup(&mut self, stream_id: i16) -> Result<Option<u64>, ()> {
+            self.0.lookup(stream_id)
+        }
+        pub fn is_reserved(&self, stream_id: i16) -> bool {
+            self.0.is_reserved(stream_id)
+        }
+    }
+
     pub fn verify_keyspace_name(
         name: String,
         case_sensitive: bool,
